@@ -163,13 +163,13 @@ impl Prop for C19 {
             + an1.facts.probes.get("cancel_in_pong_write_before_first_byte").copied().unwrap_or(0);
         if cancel_in_write > 0 && base_ok && !an1.facts.panicked {
             for x in &an1.violations {
-                if x.clause.starts_with("wire.") {
+                if matches!(x.clause.as_str(), "wire.torn_pong" | "wire.torn_pong_at_end" | "wire.non_pong_during_read" | "wire.partial_pong_at_return") {
                     rep.violations.push(v("cancel.torn_outgoing", format!("{} {} ({})", tag, x.detail, x.clause)));
                     break;
                 }
             }
         }
-        if cancels > 0 && base_ok && an1.facts.reached_disconnected && !an1.facts.panicked && rep.violations.is_empty() {
+        if cancels > 0 && base_ok && an1.facts.reached_disconnected && !an1.facts.panicked && rep.violations.is_empty() && !an1.facts.wire_broken {
             let p0 = an0.facts.pong_bytes;
             let p1 = an1.facts.pong_bytes;
             if p0 % 4 == 0 && p1 != p0 {
@@ -187,6 +187,9 @@ impl Prop for C19 {
     }
     fn shrink(&self, sc: &StreamScenario) -> Vec<StreamScenario> {
         shrink_stream(sc)
+    }
+    fn preludes(&self, sc: &StreamScenario) -> Vec<StreamScenario> {
+        crate::streamprop::stream_preludes(sc)
     }
     fn rule(&self) -> String {
         "Each case is one tokio session: an inbound history (keep-alive rich), a link script with Pending/Ready on both halves, short stalls and short writes, and an application script that starts read(), polls it a scripted number of times (0..16) and drops it, interleaved with completed reads, writes and clock advances (the strobe example's select! pattern), then drains to Disconnected with no further cancellation. Oracle (differential, same real code): frame results of completed reads == those of the same session read without interruption; outgoing bytes form whole frames; as many keep-alive replies as the uninterrupted session. Non-trivial = at least one read future was actually dropped while pending; distinct by trace signature (which includes where each cancellation landed).".into()
